@@ -100,6 +100,17 @@ def check_model(ctx, name):
         lst = np.asarray(f(list(hs), *p), dtype=float)
     if not all_close(arr.tolist(), vals, rel=1e-13) or not all_close(lst.tolist(), vals, rel=1e-13):
         ctx.violation('array', '%s: array call differs from scalar calls' % name, case)
+    # integer-typed parameters (Python ints are admissible): array call = element by element
+    ip = [max(1, int(round(r))), max(1, int(round(min(c0, 1e6))))] + ([p[2]] if len(p) == 4 else []) + [int(ctx.rng.choice([0, 1, 2]))]
+    ih = [0.0] + [float(x) for x in np.linspace(0, 2.0 * ip[0], 7)[1:]]
+    with quiet():
+        want = [float(f(h, *ip)) for h in ih]
+        got = np.asarray(f(np.array(ih), *ip), dtype=float).tolist()
+        got_l = np.asarray(f(list(ih), *ip), dtype=float).tolist()
+    ctx.count('int_typed_params')
+    if not all_close(got, want, rel=1e-13) or not all_close(got_l, want, rel=1e-13):
+        ctx.violation('array', '%s with integer-typed parameters %r: array call %r, element by element %r' % (
+            name, ip, got, want), dict(case, int_params=ip))
     # translator validation: Float twin of the generated definition
     if name != 'matern':
         for h, v in list(zip(hs, vals))[::3]:
